@@ -969,6 +969,40 @@ def c01_rate_search(rp, seed):
             continue
         if bad:
             return r2, msg
+    # second stage: the obligation failed symbolically, i.e. for the function, not for this shape -
+    # look for a witness among stress games of other shapes (many evenly matched teams, a
+    # high-variance multi-player team placed last or first, small beta, large kappa: the regime
+    # in which floors and clamps bind), with the same model, gamma and limit setting
+    for k in range(600):
+        n = rnd.choice([2, 3, 4, 6, 8])
+        big = rnd.randrange(n)
+        beta = rnd.choice([25 / 6, 1.0, 0.3])
+        mu0 = rnd.uniform(20, 30)
+        gm = []
+        for i in range(n):
+            if i == big:
+                gm.append([[enc(mu0 + rnd.uniform(-1, 1)), enc(rnd.choice([25 / 3, 6.0, 40.0, 30.0]))] for _ in range(rnd.choice([1, 2, 2, 3]))])
+            else:
+                gm.append([[enc(mu0 + rnd.uniform(-1, 1)), enc(rnd.choice([0.8, 0.3, 25 / 3]))] for _ in range(rnd.choice([1, 1, 2]))])
+        pr = _std_params(tau=rnd.choice([0.0, 25 / 300]))
+        pr["beta"] = enc(beta)
+        pr["kappa"] = enc(rnd.choice([1e-4, 1e-4, 1e-2]))
+        r2 = dict(rp, game=gm, params=pr)
+        r2.pop("scores", None)
+        order = list(range(n))
+        if rnd.random() < 0.7:
+            order.remove(big)
+            order.append(big) if rnd.random() < 0.7 else order.insert(0, big)
+        ranks = [0] * n
+        for place, i in enumerate(order):
+            ranks[i] = place if rnd.random() < 0.85 else max(0, place - 1)
+        r2["ranks"] = [enc(x) for x in ranks]
+        try:
+            bad, msg = c01_rate(r2)
+        except Exception:  # noqa: BLE001
+            continue
+        if bad:
+            return r2, msg
     return None
 
 
@@ -997,8 +1031,18 @@ def c06_sigma_search(rp, seed):
     sizes = [len(x) for x in rp["game"]]
     for k in range(3000):
         beta = 25 / 6
-        gm = [[[enc(rnd.uniform(-60, 120)), enc(rnd.choice([5e-4, 2e-3, 0.01, 0.5, 3.0, 8.0, 30.0]))] for _ in range(n)] for n in sizes]
+        gm = [[[enc(rnd.uniform(-60, 120)), enc(rnd.choice([5e-4, 2e-3, 0.01, 0.5, 1.0, 3.0, 8.0, 30.0]))] for _ in range(n)] for n in sizes]
         r2 = dict(rp, game=gm, params=_std_params(tau=rnd.choice([0.0, 25 / 300, 1.0])))
+        r2.pop("ranks", None)
+        r2.pop("scores", None)
+        vec = rp.get("vec", "ranks")
+        if vec in ("ranks", "scores") and (vec == "scores" or k % 2):
+            r2[vec] = [enc(rnd.choice([0, 1, 2, 1.5])) for _ in sizes]
+        if k % 3 == 0:
+            # established players in an expected result: sigma barely shrinks, so the tau inflation dominates
+            for i, t in enumerate(gm):
+                for q in t:
+                    q[0], q[1] = enc(30.0 - 8.0 * i if vec != "scores" else 30.0 + 8.0 * r2[vec][i]["v"][0] / r2[vec][i]["v"][1]), enc(rnd.choice([1.0, 0.5]))
         try:
             bad, msg = c06_sigma(r2)
         except Exception:  # noqa: BLE001
